@@ -54,8 +54,8 @@ _PAYLOAD_METHODS = ["add", "radd", "iadd", "sub", "rsub", "isub", "mul", "rmul",
                     "lshift", "and", "or", "ilshift", "eq", "ne", "lt", "le", "gt", "ge"]
 _ELEM_METHODS = ["add", "radd", "iadd", "sub", "rsub", "isub", "mul", "rmul", "imul", "ilshift",
                  "eq", "ne", "lt", "le", "gt", "ge"]
-_MIN_CE = {f"ce:Payload.__{m}__": 20 for m in _PAYLOAD_METHODS}
-_MIN_CE.update({f"ce:CoordPayload.__{m}__": 20 for m in _ELEM_METHODS})
+_MIN_CE = {f"ce:Payload.__{m}__": 10 for m in _PAYLOAD_METHODS}
+_MIN_CE.update({f"ce:CoordPayload.__{m}__": 10 for m in _ELEM_METHODS})
 
 SPEC = {
     "rule": ("cases = (i) operator table: every operator of {+ - * / // << & |, == != < <= > >=} and every in-place form "
@@ -73,8 +73,8 @@ SPEC = {
     "shards": {"quick": 16, "thorough": 16},
     "min_counts": {
         "quick": dict({"evaluations": 4000, "oracle_evals": 60000, "contract_evals": 40000,
-                       "contract_evals:optable": 10000, "contract_evals:fiber": 10000, "contract_evals:kernel": 2000,
-                       "optable_executions": 10000, "fiber_ops_checked": 10000, "inplace_identity_checked": 3000,
+                       "contract_evals:optable": 5000, "contract_evals:fiber": 10000, "contract_evals:kernel": 2000,
+                       "optable_executions": 5000, "fiber_ops_checked": 10000, "inplace_identity_checked": 3000,
                        "exceptions_agreed": 200, "kernel_results_checked": 300,
                        "ops_under_metrics_collection": 500}, **_MIN_CE),
         "thorough": dict({"evaluations": 40000, "oracle_evals": 600000, "contract_evals": 400000,
@@ -103,6 +103,39 @@ SPEC = {
         "the left operand's root stores at least one sub-fiber (an unowned empty root cannot know that it is interior)",
     ],
 }
+
+# ------------------------------------------------------------------------------------------
+# canonical witnesses (replay form) of the violation classes seen on the tree this check was
+# written against; not used by the check itself - they are the `witness` of a known_findings entry
+# ------------------------------------------------------------------------------------------
+def _w_op(form, op, okind, a, b):
+    return {"kind": "optable", "form": form, "op": op, "okind": okind, "a": a, "bs": [b]}
+
+
+def _w_ff(sa, sb, d=0):
+    return {"kind": "ff", "a": {"build": "ctor", "spec": sa, "default": d, "shape": 4},
+            "b": {"build": "ctor", "spec": sb, "default": d, "shape": 4}}
+
+
+WITNESSES = {
+    "CoordPayload.<<=:returns-None": _w_op("inplace", "<<=", "elem-elem", 4, 6),
+    "CoordPayload.<<=:value": _w_op("inplace", "<<=", "elem-scalar", 4, 6),
+    "Payload./=:rebinds-new-box": _w_op("inplace", "/=", "box-scalar", 6, 3),
+    "Payload.&=:rebinds-new-box": _w_op("inplace", "&=", "box-scalar", 6, 3),
+    "Payload.|=:rebinds-new-box": _w_op("inplace", "|=", "box-scalar", 6, 3),
+    "Payload:missing-operator://:forward": _w_op("binary", "//", "box-scalar", 7, 2),
+    "Payload:missing-operator://=:inplace": _w_op("inplace", "//=", "box-scalar", 7, 2),
+    "Fiber.*=fiber:content:self-only": _w_ff([[0, 2], [1, 3]], [[1, 5]]),
+    "Fiber.*=fiber:content:self-only:nonzero-default": _w_ff([[0, 2], [1, 3]], [[1, 5]], 7),
+    "Fiber.+=fiber:content:self-only:nonzero-default": _w_ff([[0, 1]], [[1, 4]], 7),
+    "Fiber.*=fiber:depth2:content:self-only": {"kind": "tree2", "a": [[0, [[0, 2]]], [1, [[0, 3]]]], "b": [[1, [[0, 5]]]]},
+}
+for _op in ("//", "/", "<<", "&", "|"):
+    WITNESSES[f"Payload:missing-operator:{_op}:reflected"] = _w_op("binary", _op, "scalar-box", 6, 3)
+    WITNESSES[f"CoordPayload:missing-operator:{_op}:forward"] = _w_op("binary", _op, "elem-scalar", 6, 3)
+    WITNESSES[f"CoordPayload:missing-operator:{_op}:reflected"] = _w_op("binary", _op, "scalar-elem", 6, 3)
+for _op in ("/=", "//=", "&=", "|="):
+    WITNESSES[f"CoordPayload:missing-operator:{_op}:inplace"] = _w_op("inplace", _op, "elem-scalar", 6, 3)
 
 # ------------------------------------------------------------------------------------------
 # shared helpers
